@@ -42,6 +42,7 @@ func (q *clientSegmentQueue) waitUntilSizeIsBelow(ctx context.Context, n int) bo
 
 	for len(q.queue) > n {
 		q.mutex.Unlock()
+		verifPoint("q.wait.afterUnlock")
 
 		select {
 		case <-q.didPull:
@@ -62,6 +63,7 @@ func (q *clientSegmentQueue) pull(ctx context.Context) (*segmentData, bool) {
 	for len(q.queue) == 0 {
 		didPush := q.didPush
 		q.mutex.Unlock()
+		verifPoint("q.pull.afterUnlock")
 
 		select {
 		case <-didPush:
